@@ -29,6 +29,7 @@ type instrReport struct {
 	ChanWrapped []string          `json:"chan_wrapped"`
 	Gosched     []string          `json:"gosched"`
 	Knob        map[string]string `json:"knob"`
+	Timers      []string          `json:"timers"`
 	CLI         []string          `json:"cli_redirected"`
 	CLIMain     bool              `json:"cli_main"`
 }
@@ -44,6 +45,7 @@ type build struct {
 	head    string
 	diff    string
 
+	knobNote   string // non-empty: why the block-size knob is unavailable
 	cliSkipped string // non-empty: why scenario C (the real cmd/php-parser) is not simulated
 }
 
@@ -124,72 +126,93 @@ func buildSimnode(tag string) (*build, error) {
 	b := &build{scratch: scratch, src: filepath.Join(scratch, "src"), simnode: filepath.Join(scratch, "simnode"), repo: repo}
 	vd := verifDir()
 	h := filepath.Join(scratch, "h")
-	if out, err := run("", nil, "rsync", "-a", "--exclude", ".git", "--exclude", "/out", "--exclude", "/TASK.md", repo+"/", b.src+"/"); err != nil {
-		return b, fmt.Errorf("rsync: %v\n%s", err, out)
-	}
-	if err := copyGlob(filepath.Join(vd, "sim/zzsim/*.go"), filepath.Join(b.src, "pkg/zzsim")); err != nil {
-		return b, err
-	}
-	if err := copyGlob(filepath.Join(vd, "sim/zzsimsync/*.go"), filepath.Join(b.src, "pkg/zzsimsync")); err != nil {
-		return b, err
-	}
-	for _, shim := range []string{"zzsimflag", "zzsimos"} {
-		if err := copyGlob(filepath.Join(vd, "sim", shim, "*.go"), filepath.Join(b.src, "pkg", shim)); err != nil {
-			return b, err
+	attempt := func(extra ...string) error {
+		os.RemoveAll(b.src)
+		os.RemoveAll(h)
+		b.instr = instrReport{}
+		if out, err := run("", nil, "rsync", "-a", "--exclude", ".git", "--exclude", "/out", "--exclude", "/TASK.md", repo+"/", b.src+"/"); err != nil {
+			return fmt.Errorf("rsync: %v\n%s", err, out)
 		}
-	}
-	if err := copyGlob(filepath.Join(vd, "harness/*.go"), filepath.Join(h, "harness")); err != nil {
-		return b, err
-	}
-	if err := copyGlob(filepath.Join(vd, "scn/*.go"), filepath.Join(h, "scn")); err != nil {
-		return b, err
-	}
-	instrument := filepath.Join(vd, "bin/verif-instrument")
-	if _, err := os.Stat(instrument); err != nil {
-		if out, err := run(vd, goEnv(), "go", "build", "-o", "bin/verif-instrument", "./cmd/verif-instrument"); err != nil {
-			return b, fmt.Errorf("building verif-instrument: %v\n%s", err, out)
+		if err := copyGlob(filepath.Join(vd, "sim/zzsim/*.go"), filepath.Join(b.src, "pkg/zzsim")); err != nil {
+			return err
 		}
-	}
-	rep := filepath.Join(scratch, "instr.json")
-	if out, err := run("", nil, instrument, "-root", b.src, "-report", rep, "-gen", filepath.Join(h, "harness")); err != nil {
-		return b, fmt.Errorf("instrument: %v\n%s", err, out)
-	}
-	raw, err := os.ReadFile(rep)
-	if err != nil {
-		return b, err
-	}
-	if err := json.Unmarshal(raw, &b.instr); err != nil {
-		return b, err
-	}
-	gomod := "module verif\n\ngo 1.21\n\nrequire github.com/z7zmey/php-parser v0.0.0\n\nreplace github.com/z7zmey/php-parser => ../src\n"
-	if err := os.WriteFile(filepath.Join(h, "go.mod"), []byte(gomod), 0644); err != nil {
-		return b, err
-	}
-	if sum, err := os.ReadFile(filepath.Join(repo, "go.sum")); err == nil {
-		os.WriteFile(filepath.Join(h, "go.sum"), sum, 0644)
-	}
-	// with the real cmd/php-parser linked in (scenario C) if its instrumented
-	// copy builds; otherwise without it, and scenario C is reported as skipped
-	tags := "zzcli"
-	if !b.instr.CLIMain {
-		tags, b.cliSkipped = "", "cmd/php-parser has no func main"
-	}
-	for _, c := range b.instr.ChanOps {
-		if strings.HasPrefix(c, "cmd/") && tags != "" {
-			tags, b.cliSkipped = "", "cmd/php-parser uses a channel construct the simulator cannot own: "+c
+		if err := copyGlob(filepath.Join(vd, "sim/zzsimsync/*.go"), filepath.Join(b.src, "pkg/zzsimsync")); err != nil {
+			return err
 		}
+		for _, shim := range []string{"zzsimflag", "zzsimos"} {
+			if err := copyGlob(filepath.Join(vd, "sim", shim, "*.go"), filepath.Join(b.src, "pkg", shim)); err != nil {
+				return err
+			}
+		}
+		if err := copyGlob(filepath.Join(vd, "harness/*.go"), filepath.Join(h, "harness")); err != nil {
+			return err
+		}
+		if err := copyGlob(filepath.Join(vd, "scn/*.go"), filepath.Join(h, "scn")); err != nil {
+			return err
+		}
+		instrument := filepath.Join(vd, "bin/verif-instrument")
+		if _, err := os.Stat(instrument); err != nil {
+			if out, err := run(vd, goEnv(), "go", "build", "-o", "bin/verif-instrument", "./cmd/verif-instrument"); err != nil {
+				return fmt.Errorf("building verif-instrument: %v\n%s", err, out)
+			}
+		}
+		rep := filepath.Join(scratch, "instr.json")
+		if out, err := run("", nil, instrument, append([]string{"-root", b.src, "-report", rep, "-gen", filepath.Join(h, "harness")}, extra...)...); err != nil {
+			return fmt.Errorf("instrument: %v\n%s", err, out)
+		}
+		raw, err := os.ReadFile(rep)
+		if err != nil {
+			return err
+		}
+		if err := json.Unmarshal(raw, &b.instr); err != nil {
+			return err
+		}
+		gomod := "module verif\n\ngo 1.21\n\nrequire github.com/z7zmey/php-parser v0.0.0\n\nreplace github.com/z7zmey/php-parser => ../src\n"
+		if err := os.WriteFile(filepath.Join(h, "go.mod"), []byte(gomod), 0644); err != nil {
+			return err
+		}
+		if sum, err := os.ReadFile(filepath.Join(repo, "go.sum")); err == nil {
+			os.WriteFile(filepath.Join(h, "go.sum"), sum, 0644)
+		}
+		// with the real cmd/php-parser linked in (scenario C) if its instrumented
+		// copy builds; otherwise without it, and scenario C is reported as skipped
+		tags := "zzcli"
+		b.cliSkipped = ""
+		if !b.instr.CLIMain {
+			tags, b.cliSkipped = "", "cmd/php-parser has no func main"
+		}
+		for _, c := range b.instr.ChanOps {
+			if strings.HasPrefix(c, "cmd/") && tags != "" {
+				tags, b.cliSkipped = "", "cmd/php-parser uses a channel construct the simulator cannot own: "+c
+			}
+		}
+		for _, c := range b.instr.Timers {
+			if strings.HasPrefix(c, "cmd/") && tags != "" {
+				tags, b.cliSkipped = "", "cmd/php-parser waits on the real clock, which the simulator does not own: "+c
+			}
+		}
+		out, err := run(h, goEnv(), "go", "build", "-race", "-tags", tags, "-o", b.simnode, "./harness")
+		if err != nil && tags != "" {
+			tags, b.cliSkipped = "", "the instrumented cmd/php-parser does not build: "+firstLines(out, 6)
+			out, err = run(h, goEnv(), "go", "build", "-race", "-tags", tags, "-o", b.simnode, "./harness")
+		}
+		if err != nil {
+			return fmt.Errorf("go build -race of the instrumented tree failed: %v\n%s", err, out)
+		}
+		b.simref = filepath.Join(scratch, "simref")
+		if out, err := run(h, goEnv(), "go", "build", "-tags", tags, "-o", b.simref, "./harness"); err != nil {
+			return fmt.Errorf("go build of the instrumented tree (plain) failed: %v\n%s", err, out)
+		}
+		return nil
 	}
-	out, err := run(h, goEnv(), "go", "build", "-race", "-tags", tags, "-o", b.simnode, "./harness")
-	if err != nil && tags != "" {
-		tags, b.cliSkipped = "", "the instrumented cmd/php-parser does not build: "+firstLines(out, 6)
-		out, err = run(h, goEnv(), "go", "build", "-race", "-tags", tags, "-o", b.simnode, "./harness")
-	}
-	if err != nil {
-		return b, fmt.Errorf("go build -race of the instrumented tree failed: %v\n%s", err, out)
-	}
-	b.simref = filepath.Join(scratch, "simref")
-	if out, err := run(h, goEnv(), "go", "build", "-tags", tags, "-o", b.simref, "./harness"); err != nil {
-		return b, fmt.Errorf("go build of the instrumented tree (plain) failed: %v\n%s", err, out)
+	if err := attempt(); err != nil {
+		// a change may use DefaultBlockSize where only a constant is allowed: the
+		// knob (const -> var) is then given up rather than the whole check
+		first := err
+		if err2 := attempt("-noknob"); err2 != nil {
+			return b, fmt.Errorf("%v\n(and without the block-size knob: %v)", first, err2)
+		}
+		b.knobNote = "block-size knob given up, the tree does not build with DefaultBlockSize as a variable: " + firstLines(first.Error(), 4)
 	}
 	if out, err := run(repo, nil, "git", "rev-parse", "HEAD"); err == nil {
 		b.head = strings.TrimSpace(out)
